@@ -1124,11 +1124,12 @@ static int shrink_map(const std::string &mode, History H) {
 
 // Once a property has been falsified rapidcheck re-runs it on shrink candidates.  Statistics stop then, and the
 // work spent on shrinking is bounded by a count of executed steps (not by time); candidates beyond the budget
-// are reported as passing, except those already known to fail (rapidcheck re-runs the final one).
+// are reported as passing, except those already known to fail (rapidcheck re-runs the final one; it gets the
+// recorded oracle message without being executed again).
 struct ShrinkGuard {
   bool failed = false;
   long steps = 0, budget = 30000000;
-  std::unordered_set<uint64_t> known_fail;
+  std::unordered_map<uint64_t, std::string> known_fail;   // sequence hash -> oracle message
 };
 
 static std::string clip(const std::string &s, size_t n) { return s.size() <= n ? s : s.substr(0, n) + "..."; }
@@ -1147,7 +1148,7 @@ static int tree_rc() {
     g_cur_text = tree_text(keys);
     uint64_t hh = fnv64(g_cur_text);
     if (G.failed) {
-      if (G.known_fail.count(hh)) RC_FAIL("known failing candidate");
+      if (G.known_fail.count(hh)) RC_FAIL(G.known_fail[hh]);
       if (G.steps > G.budget) return TreeRes();
       G.steps += (long)keys.size() * 8 + 100;
     }
@@ -1156,7 +1157,7 @@ static int tree_rc() {
     alarm(0);
     if (!r.err.empty()) {
       G.failed = true;
-      G.known_fail.insert(hh);
+      G.known_fail[hh] = r.err;
       last_fail = keys;
       RC_FAIL(r.err);
     }
@@ -1229,7 +1230,7 @@ static int map_rc() {
     g_cur_text = map_text(H);
     uint64_t hh = fnv64(g_cur_text);
     if (G.failed) {
-      if (G.known_fail.count(hh)) RC_FAIL("known failing candidate");
+      if (G.known_fail.count(hh)) RC_FAIL(G.known_fail[hh]);
       if (G.steps > G.budget) return;
       G.steps += (long)H.ops.size() * 4 + 100;
     }
@@ -1238,7 +1239,7 @@ static int map_rc() {
     alarm(0);
     if (!r.err.empty()) {
       G.failed = true;
-      G.known_fail.insert(hh);
+      G.known_fail[hh] = r.err;
       last_fail = H;
       RC_FAIL(r.err);
     }
